@@ -1,7 +1,11 @@
 /* C03: death of the peer at any point is detected and fully cleaned up (crash-point enumeration) */
 #include "ipc_world.h"
 
-static int transport, script, victim_is_server, kmax;
+static int transport, script, victim_is_server, kmax, jmax;
+static int in_disconnect, died_during_disconnect;   /* the server died while the client was already inside qb_ipcc_disconnect: the statement
+                                                        speaks of a server that is dead when disconnect is called; what a server that was alive
+                                                        at the call's liveness test leaves behind is nobody's to remove -- not judged */
+static long J;          /* mode 3: the client dies just before the server's J-th wrapped call after the session began */
 static long K;
 enum { ST_NONE, ST_ACCEPTED, ST_CREATED, ST_CLOSED, ST_DESTROYED };
 #define MAXCONN 6
@@ -113,7 +117,9 @@ static void session(qb_ipcc_connection_t **cp, unsigned char *buf, int s)
 		r = qb_ipcc_event_recv(*cp, buf, 2048, 100);
 		vp_log("  V: event_recv = %zd", r);
 	}
+	in_disconnect = 1;
 	qb_ipcc_disconnect(*cp);
+	in_disconnect = 0;
 	vp_log("  V: disconnect");
 	*cp = NULL;
 }
@@ -149,6 +155,7 @@ static void victim_main(void *arg)
 static void on_death(int co)
 {
 	w_close_fds_of(co);
+	if (co == W_server_co && in_disconnect) died_during_disconnect = 1;
 	if (co == W_server_co) W_dead_server_pid = (int)getpid();
 }
 
@@ -167,17 +174,18 @@ static void director_main(void *arg)
 		nanosleep(&ts, NULL);
 		shm_listing(base_shm, sizeof base_shm); base_fds = open_fd_count();
 		qb_ipcs_stats_get(SV, &st0, QB_FALSE);
-		W_kill_at[victim_co] = K;
+		if (J) w_hit_arm(victim_co, W_server_co, J); else W_kill_at[victim_co] = K;
 		victim_started = 1;
 		vp_block(fin_pred, NULL, "victim to finish or die");
-		if (!W_dead[victim_co] && K > W_calls[victim_co]) { vp_pruned(); vp_count(1, (uint64_t)W_calls[victim_co]); }    /* K beyond the last call: the complete run */
+		if (J && !W_dead[victim_co]) { W_hit_done = 1; vp_pruned(); vp_count(3, (uint64_t)(W_calls[W_server_co] - W_hit_base)); }   /* the session ended before the server's J-th call */
+		else if (!J && !W_dead[victim_co] && K > W_calls[victim_co]) { vp_pruned(); vp_count(1, (uint64_t)W_calls[victim_co]); }    /* K beyond the last call: the complete run */
 		else vp_count(2, 1);
 		/* quiescence: a few virtual seconds (the application switches its rate limiting off again) */
 		if (want_fc) { want_fc = 0; qb_ipcs_request_rate_limit(SV, QB_IPCS_RATE_NORMAL); vp_log("  S: rate limit NORMAL"); }   /* the server is idle in epoll_wait: no interleaving issue */
 		for (i = 0; i < 30; i++) nanosleep(&ts, NULL);
 		/* 1. callbacks of the dead client's connection */
 		for (i = 0; i < ncn; i++) if (CN[i].is_victim) {
-			if (CN[i].st != ST_DESTROYED) vp_fail("the client died (before its wrapped call #%ld) but its connection was never destroyed (state %d, created=%d closed=%d)", K, CN[i].st, CN[i].created, CN[i].closed);
+			if (CN[i].st != ST_DESTROYED) vp_fail("the client died (%s #%ld) but its connection was never destroyed (state %d, created=%d closed=%d)", J ? "just before the server's wrapped call" : "before its wrapped call", J ? J : K, CN[i].st, CN[i].created, CN[i].closed);
 			if (CN[i].destroyed != 1) vp_fail("destroyed ran %d times", CN[i].destroyed);
 		}
 		/* 2. the server keeps serving its other client */
@@ -200,8 +208,9 @@ static void director_main(void *arg)
 		uint64_t t0;
 		shm_listing(base_shm, sizeof base_shm);
 		W_on_death = on_death;
-		W_kill_at[W_server_co] = K;
+		if (J) w_hit_arm(W_server_co, vp_co_self(), J); else W_kill_at[W_server_co] = K;
 		session(&VIC, vb, script);
+		W_hit_done = 1;
 		if (!W_dead[W_server_co]) {
 			/* the whole session ran: K is beyond the calls the server makes for it */
 			vp_pruned(); vp_count(1, (uint64_t)W_calls[W_server_co]);
@@ -223,7 +232,7 @@ static void director_main(void *arg)
 		shm_files_only = 0;
 		/* files of a connection the client had established must be gone after its disconnect; what a server that died
 		   in the middle of the handshake left behind belongs to nobody (the client never got a connection to disconnect) */
-		if (session_connected && strcmp(base_shm, now_shm)) vp_fail("after the server died and the client disconnected, shared-memory entries remain: '%s' (before: '%s')", now_shm, base_shm);
+		if (session_connected && !died_during_disconnect && strcmp(base_shm, now_shm)) vp_fail("after the server died and the client disconnected, shared-memory entries remain: '%s' (before: '%s')", now_shm, base_shm);
 		(void)iov; (void)r;
 	}
 }
@@ -297,31 +306,37 @@ static void run(void)
 	world_init_sched();
 	vp_blocked_switch_cost = 1; vp_free_yield_cost = 1;      /* one canonical schedule per crash point; deviations only within the bound */
 	shm_clean();
+	in_disconnect = died_during_disconnect = 0;
 	ncn = 0; CTRL = VIC = NULL; victim_started = victim_finished = 0; want_events = want_fc = 0;
 	transport = vp_choose(2, "transport");
-	mode = vp_choose(3, "who dies");       /* 0 client, 1 server during a session, 2 server while a call is waiting */
-	victim_is_server = mode > 0;
+	mode = vp_choose(5, "who dies");       /* 0 client, 1 server during a session, 2 server while a call is waiting, 3 client at a moment of the server's execution, 4 server at a moment of the client's */
+	victim_is_server = mode == 1 || mode == 2 || mode == 4;
 	silent_server = mode == 2;
+	J = 0;
 	if (mode == 0) { script = vp_choose(5, "session script"); if (script == 4) { raw_bytes = vp_choose(17 + 1, "handshake bytes delivered"); K = 1000; } else K = 1 + vp_choose(kmax, "dies before wrapped call"); }
 	else if (mode == 1) { script = vp_choose(4, "session script"); K = 1 + vp_choose(kmax, "server dies before wrapped call"); }
+	else if (mode == 3) { script = vp_choose(4, "session script"); K = 0; J = 1 + vp_choose(jmax, "client dies just before the server's wrapped call"); }
+	else if (mode == 4) { script = vp_choose(4, "session script"); K = 0; J = 1 + vp_choose(kmax, "server dies just before the client's wrapped call"); }
 	else { script = vp_choose(3, "call in progress"); K = 1 + vp_choose(40, "server dies before wrapped call (after connect)"); }
-	vp_log("transport %s, %s dies, script %d, K=%ld", transport ? "socket" : "shm", mode ? "server" : "client", script, K);
+	vp_log("transport %s, %s dies, script %d, K=%ld J=%ld", transport ? "socket" : "shm", victim_is_server ? "server" : "client", script, K, J);
 	world_start(transport ? QB_IPC_SOCKET : QB_IPC_SHM, &h, 0);
 	W_server_turn = server_turn;
 	W_on_death = on_death;
 	W_server_co = vp_co_spawn(server_main, NULL, "server");
 	w_adopt_main_fds(W_server_co);        /* the service was set up in the main context: those descriptors are the server's */
-	if (mode == 0) { victim_co = vp_co_spawn(victim_main, NULL, "victim"); ctrl_co = vp_co_spawn(director_main, NULL, "control"); }
-	else if (mode == 1) ctrl_co = vp_co_spawn(director_main, NULL, "client");
+	if (mode == 0 || mode == 3) { victim_co = vp_co_spawn(victim_main, NULL, "victim"); ctrl_co = vp_co_spawn(director_main, NULL, "control"); }
+	else if (mode == 1 || mode == 4) ctrl_co = vp_co_spawn(director_main, NULL, "client");
 	else ctrl_co = vp_co_spawn(director_sd_main, NULL, "client");
 	if (vp_co_run()) { vp_pruned(); return; }
 	vp_outcome_u64((uint64_t)mode * 100000 + (uint64_t)script * 10000 + (uint64_t)ncn);
-	vp_state((uint64_t)mode * 1000003 + (uint64_t)script * 10007 + (uint64_t)K * 13 + (uint64_t)transport);
+	vp_state((uint64_t)mode * 1000003 + (uint64_t)script * 10007 + (uint64_t)K * 13 + (uint64_t)J * 7919 + (uint64_t)transport);
 }
 
 static void init(void)
 {
 	kmax = (int)vp_param("max_crash_point", 260, 260);
+	jmax = (int)vp_param("max_server_call", 400, 400);
+	vp_count_name(3, "server_calls_during_complete_sessions_sum");
 	vp_count_name(1, "calls_of_dying_party_in_complete_runs_sum");
 	vp_count_name(2, "executions_in_which_the_party_died");
 }
@@ -335,7 +350,10 @@ int main(int argc, char **argv)
 			"round trips, S2 two more requests left queued behind flow control, S3 two queued events, dies before its K-th wrapped system/libc "
 			"call for every K, or (S4) delivers only the first j bytes of the handshake (every j) and dies, while a control client stays "
 			"connected; (b) the server dies before its K-th wrapped call during each session; (c) the server dies K calls after the connect while "
-			"sendv_recv(-1), event_recv(-1) or recv(500 ms) is in progress.  Oracle: destroyed exactly once (closed first iff created), control "
+			"sendv_recv(-1), event_recv(-1) or recv(500 ms) is in progress; (d) the client dies, wherever it is (also blocked inside a call), just "
+			"before the J-th wrapped call the SERVER makes after the session began, for every J (a kill between any two system calls of the "
+			"server, e.g. between reading the handshake and answering it); (e) the server dies, wherever it is, just before the client's J-th wrapped "
+			"call of the session.  Oracle: destroyed exactly once (closed first iff created), control "
 			"client round trip, /dev/shm listing, descriptor count and active-connection statistic back to the baseline; bounded return of "
 			"waiting calls on the virtual clock, immediate failure afterwards, no shared-memory entries after the client's disconnect; "
 			"distinct = (mode, script, connections)",
